@@ -216,7 +216,8 @@ theorem mapping_defined_in_range (mp : Mapping) (v : Int) :
 /-! ## secondary captures -/
 
 /-- **The image pixel module of `SCImage`** (regenerated decision block) accepts exactly `SCAccepted`: bool
-with 1 bit, uint8 with 8, uint16 with 12 (stored in 16, values below 4096) or 16; 2-D arrays as MONOCHROME1/2,
+with 1 bit, uint8 with 8, uint16 with 16 or 12 (12 is written **as given** -- Bits Allocated 12 over 16-bit cells,
+which PS3.5 8.1.1 does not allow: `counterexample_sc_bits_allocated_12`); 2-D arrays as MONOCHROME1/2,
 (r, c, 3) uint8 arrays with the colour photometric interpretation the syntax takes; RLE only with whole
 bytes -- and writes the bits, samples per pixel and planar configuration stated there. -/
 theorem sc_module_iff (ba : Int) (pi ts dtypeStr : String) (ndim lastDim arrayMax BA BS HB PR SPP PC : Int) :
@@ -229,28 +230,39 @@ theorem sc_module_iff (ba : Int) (pi ts dtypeStr : String) (ndim lastDim arrayMa
     | error e => exact absurd hm (fun hm => scPixelModule_not_refused _ _ _ _ _ _ _ _ _ _ _ _ _ e hs hm)
     | ok v =>
       have hv := scPixelModule_sound _ _ _ _ _ _ _ _ hm
-      obtain ⟨_, _, _, hsh, hb⟩ := hs
-      obtain ⟨_, _, _, hsh', hb'⟩ := hv
+      obtain ⟨_, _, hsh, hb⟩ := hs
+      obtain ⟨_, _, hsh', hb'⟩ := hv
       obtain ⟨a1, a2, a3, a4, a5, a6⟩ := v
       simp only at hsh' hb'
       have e1 : a1 = BA := by rw [hb'.1, hb.1]
       have e2 : a2 = BS := by rw [hb'.2.1, hb.2.1]
-      have e3 : a3 = HB := by rw [hb'.2.2.1, hb.2.2.1, e2]
+      have e3 : a3 = HB := by rw [hb'.2.2.1, hb.2.2.1]
       have e4 : a4 = PR := by rw [hb'.2.2.2, hb.2.2.2]
       have e56 : a5 = SPP ∧ a6 = PC := by
         rcases hsh with ⟨h3, _, _, _, _, s1, p1⟩ | ⟨h2, _, s1, p1⟩ <;>
           rcases hsh' with ⟨h3', _, _, _, _, s2, p2⟩ | ⟨h2', _, s2, p2⟩ <;> omega
       rw [e1, e2, e3, e4, e56.1, e56.2]
 
-/- Full statement: as below without `hpi`. -/
+/- Full statement: as below without `hpi` and `h12`. -/
 /-- **`sc_decodes_equal`** (native syntaxes; partial: `YBR_FULL` excluded, which pydicom converts to RGB by
-default -- finding C07-ybr-full-decoded-as-rgb): whenever `SCImage` builds an object from a well-formed
-array, what pydicom decodes from it (a one-frame image with the written attributes) is the array: bool,
-uint8, uint16 with 16 or 12 bits, monochrome or RGB, every shape, every content. -/
+default -- finding C07-ybr-full-decoded-as-rgb; `bits_allocated = 12` excluded, which no conforming decoder
+reads -- finding C19-sc-bits-allocated-12, `counterexample_sc_bits_allocated_12`): whenever `SCImage` builds an
+object from a well-formed array, what pydicom decodes from it (a one-frame image with the written attributes) is
+the array: bool, uint8, uint16 with 16 bits, monochrome or RGB, every shape, every content. -/
 theorem sc_decodes_equal_partial (c : CodecImpl) (conv : List Int → List Int) (ts pi : String) (ba : Int) (x : Frame)
-    (o : SCObject) (hwf : x.WF) (hts : ts ∈ nativeSyntaxes) (hpi : pi ≠ "YBR_FULL") (h : scBuild c ts pi ba x = .ok o) :
-    scDecode c conv ts o = .ok x.data :=
-  sc_native_decodes c conv ts pi ba x o hwf hts hpi h
+    (o : SCObject) (hwf : x.WF) (hts : ts ∈ nativeSyntaxes) (hpi : pi ≠ "YBR_FULL") (h12 : ba ≠ 12)
+    (h : scBuild c ts pi ba x = .ok o) : scDecode c conv ts o = .ok x.data :=
+  sc_native_decodes c conv ts pi ba x o hwf hts hpi h12 h
+
+/-- **Counterexample to the full `sc_decodes_equal`** (open finding C19-sc-bits-allocated-12): every secondary
+capture `SCImage` builds with `bits_allocated = 12` in a native syntax -- and it builds one from every 2-D uint16
+array -- carries Bits Allocated 12, which pydicom's decoder refuses: the stored pixels cannot be read back. -/
+theorem counterexample_sc_bits_allocated_12 (c : CodecImpl) (conv : List Int → List Int) (ts pi : String) (x : Frame)
+    (o : SCObject) (hts : ts ∈ nativeSyntaxes) (h : scBuild c ts pi 12 x = .ok o) :
+    o.bitsAllocated = 12 ∧ scDecode c conv ts o = .error .value := by
+  refine ⟨?_, sc_twelve_undecodable c conv ts pi x o hts h⟩
+  obtain ⟨mod, bytes, hmod, _, rfl⟩ := scBuild_ok c ts pi 12 x o h
+  exact (sc_request ts pi 12 x mod hmod).2.2.1
 
 /-- the same for RLE / JPEG-LS, conditional on the codec's `Lossless` law (exercised on the real codecs) -/
 theorem sc_decodes_equal_encapsulated_partial (c : CodecImpl) (hc : c.Lossless) (conv : List Int → List Int) (ts pi : String)
@@ -277,14 +289,14 @@ theorem sc_refuses_dtype (c : CodecImpl) (ts pi : String) (ba : Int) (x : Frame)
   · exact h.2.1 (h2.mp hd)
   · exact h.2.2 (h3.mp hd)
 
-/-- a bits-allocated value that does not belong to the dtype is refused; so is 12-bit data with a value >= 4096 -/
+/-- a bits-allocated value that does not belong to the dtype is refused -/
 theorem sc_refuses_depth (c : CodecImpl) (ts pi : String) (ba : Int) (x : Frame)
-    (h : (x.dtype = .bool ∧ ba ≠ 1) ∨ (x.dtype = .u8 ∧ ba ≠ 8) ∨ (x.dtype = .u16 ∧ ba ≠ 12 ∧ ba ≠ 16) ∨
-         (ba = 12 ∧ 4096 ≤ x.max)) : ∃ e, scBuild c ts pi ba x = .error e := by
+    (h : (x.dtype = .bool ∧ ba ≠ 1) ∨ (x.dtype = .u8 ∧ ba ≠ 8) ∨ (x.dtype = .u16 ∧ ba ≠ 12 ∧ ba ≠ 16)) :
+    ∃ e, scBuild c ts pi ba x = .error e := by
   apply scBuild_refused
   rintro ⟨BA, BS, HB, PR, SPP, PC, hs⟩
   obtain ⟨h1, h2, h3⟩ := dtype_of_name x.dtype
-  rcases h with ⟨hd, hb⟩ | ⟨hd, hb⟩ | ⟨hd, hb1, hb2⟩ | ⟨hb, hmx⟩
+  rcases h with ⟨hd, hb⟩ | ⟨hd, hb⟩ | ⟨hd, hb1, hb2⟩
   · rcases hs.depth with ⟨_, e⟩ | ⟨e, _⟩ | ⟨e, _⟩
     · exact hb e
     · rw [hd] at e; simp [DType.name] at e
@@ -297,7 +309,6 @@ theorem sc_refuses_depth (c : CodecImpl) (ts pi : String) (ba : Int) (x : Frame)
     · rw [hd] at e; simp [DType.name] at e
     · rw [hd] at e; simp [DType.name] at e
     · omega
-  · have := hs.twelve hb; omega
 
 /-- arrays that are neither 2-D nor (r, c, 3), colour arrays that are not 8-bit unsigned, and photometric
 interpretations that do not fit the rank are refused -/
@@ -343,12 +354,18 @@ example : CellsWF exampleInput := by intro i k j; rfl
 example : (build { exampleInput with dtypeKind := "f", dtypeName := "float32", dtypeStr := "float32", itemsize := 4 }).toOption.map
     (fun o => (o.element, o.bitsAllocated, o.bitsStored)) = some ("FloatPixelData", 32, -1) := by decide
 
-/-- a 1x3 uint16 secondary capture with 12 bits: written as 12 stored in 16 allocated, decoded to itself -/
-example : (scBuild ⟨fun _ _ _ _ _ => .error .other, fun _ _ _ _ _ => .error .other⟩ "1.2.840.10008.1.2.1" "MONOCHROME2" 12
-    ⟨1, 3, none, .u16, [1, 4095, 256]⟩).toOption.map (fun o => (o.bitsAllocated, o.bitsStored, o.highBit, o.frameBytes)) =
-    some (16, 12, 11, [1,0, 255,15, 0,1]) := by decide
-/-- the same array with one value of 4096 is refused -/
-example : (scBuild ⟨fun _ _ _ _ _ => .error .other, fun _ _ _ _ _ => .error .other⟩ "1.2.840.10008.1.2.1" "MONOCHROME2" 12
-    ⟨1, 3, none, .u16, [1, 4096, 256]⟩).toOption.isNone = true := by decide
+private def noCodec : CodecImpl := ⟨fun _ _ _ _ _ => .error .other, fun _ _ _ _ _ => .error .other⟩
+
+/-- a 1x3 uint16 secondary capture with 16 bits decodes to itself -/
+example : (scBuild noCodec "1.2.840.10008.1.2.1" "MONOCHROME2" 16 ⟨1, 3, none, .u16, [1, 4095, 256]⟩).toOption.map
+    (fun o => (o.bitsAllocated, o.bitsStored, o.highBit, o.frameBytes)) = some (16, 16, 15, [1,0, 255,15, 0,1]) := by decide
+example : ((scBuild noCodec "1.2.840.10008.1.2.1" "MONOCHROME2" 16 ⟨1, 3, none, .u16, [1, 4095, 256]⟩).toOption.map
+    (fun o => (scDecode noCodec id "1.2.840.10008.1.2.1" o).toOption)) = some (some [1, 4095, 256]) := by decide
+/-- as the code is: with 12 bits the same array is written with Bits Allocated 12 over 16-bit cells (any content, also
+    values >= 4096), and pydicom's decoder refuses the object -/
+example : (scBuild noCodec "1.2.840.10008.1.2.1" "MONOCHROME2" 12 ⟨1, 3, none, .u16, [1, 4096, 256]⟩).toOption.map
+    (fun o => (o.bitsAllocated, o.bitsStored, o.highBit, o.frameBytes)) = some (12, 12, 11, [1,0, 0,16, 0,1]) := by decide
+example : ((scBuild noCodec "1.2.840.10008.1.2.1" "MONOCHROME2" 12 ⟨1, 3, none, .u16, [1, 4096, 256]⟩).toOption.map
+    (fun o => (scDecode noCodec id "1.2.840.10008.1.2.1" o).toOption)) = some none := by decide
 
 end HdVerif.C19
